@@ -43,6 +43,7 @@ import wire
 import p_attack
 import p_grid
 import p_place
+import p_examples
 from p_attack import fenc
 from p_place import guarded
 
@@ -571,7 +572,7 @@ def run_sim(name, big, seed, episodes, steps, upto=None):
 
 class C03Prop(core.Prop):
     pid = "C03"
-    lean_targets = ["Abmarl.Props.C03"]
+    lean_targets = ["Abmarl.Props.C03", "Abmarl.Props.Examples"]
     rule = (
         "histories on ONE real world object: a random legal configuration (grids 1x1..5x5 incl. single row/column, "
         "overlap tables from empty to complete incl. one-sided, <=7 agents mixing movers / attackers / ammunition / "
@@ -591,8 +592,8 @@ class C03Prop(core.Prop):
         "world judged by the Lean invariant (gwinv); writes through the health / ammunition setters after a real "
         "reset (health raised above 1, ammunition below 0), judged by gwinv; the out-of-domain stream of finding K4 "
         "(health drawn as exactly 0.0). distinct by request line; non-trivial = some move / attack of the history changed the world (per-call "
-        "streams: by their own rule; monitor: every world)")
-    assumptions = [
+        "streams: by their own rule; monitor: every world)" + p_examples.RULE)
+    assumptions = p_examples.ASSUMPTIONS + [
         "health, strength, accuracy are exact rationals (dyadic test values, on which IEEE arithmetic is exact)",
         "numpy.random / random.shuffle are the scripted oracle tape (DESIGN.md 3.1): uniform(0, 1) never returns "
         "exactly 0 in the regular stream; the stream in which it does is finding K4",
@@ -603,7 +604,8 @@ class C03Prop(core.Prop):
         "the constructor): simulations without a HealthState (MultiMazeNavigation, TrafficCorridor)",
         "ReachTheTargetSim deactivates runners by hand (agent.active = False with positive health): judged by "
         "WInvWeak (zero health -> inactive) instead of the 'built-in components alone' clause active <-> health > 0",
-        "the example simulations are a runtime monitor only (no model outcome): their hand-written step glue is not modelled",
+        "stream sim: the example simulations as a runtime monitor (no model outcome); the five classes built from built-in "
+        "components are ALSO modelled (stream example-modelled); ReachTheTargetSim stays a monitor only",
     ]
 
     def __init__(self):
@@ -704,6 +706,8 @@ class C03Prop(core.Prop):
             if c is None:
                 raise ValueError("setter case: the reset of the description fails")
             return c
+        if s == "example-modelled":
+            return self._ex_wrap(p_examples.case_from_desc(d))
         if s == "sim":
             last = None
             for k, what, st, stat, dyn, weak in run_sim(d["sim"], d["big"], d["seed"], d["episodes"], d["steps"],
@@ -817,6 +821,17 @@ class C03Prop(core.Prop):
                     for k, what, st, stat, dyn, weak in run_sim(name, big, d["seed"], d["episodes"], d["steps"]):
                         yield self._sim_case({**d, "upto": k}, what, st, stat, dyn, weak)
 
+    @staticmethod
+    def _ex_wrap(c):
+        k = C03Case(c.desc, c.line, c.impl, key=("example-modelled", c.key), nontrivial=c.nontrivial, tags=c.tags)
+        k.stream, k.inner = "example-modelled", None
+        return k
+
+    def _examples(self, rng, quick):
+        """the five modelled example classes: real objects against the model of their own step / reset / getters"""
+        for c in p_examples.gen_cases(rng, "example-modelled", 450 if quick else 9000, quick):
+            yield self._ex_wrap(c)
+
     def _percall_moves(self, rng, count):
         for _ in range(count):
             desc = gridw.gen_world(rng, kinds=p_grid.mover_kinds)
@@ -872,6 +887,7 @@ class C03Prop(core.Prop):
         yield from self._k4(rng, 60 if quick else 600)
         yield from self._setter(rng, 150 if quick else 1500)
         yield from self._sims(rng, quick)
+        yield from self._examples(rng, quick)
         # the per-call streams of C12 / C11 / C13, re-judged for C03
         yield from self._guard("move", self._percall_moves(rng, 60 if quick else 600))
         yield from self._guard("attack", self._percall_attacks(rng, 2500 if quick else 25000))
@@ -905,6 +921,8 @@ class C03Prop(core.Prop):
                 raise ValueError("gplace reply without the C03 component")
             wf = ms[1] == 1
             return core.Verdict(v.model, (ms[2] == 1) if wf else None, is_[-1] == 1, {"c03Place": is_[-1]})
+        if s == "example-modelled":
+            return p_examples.interpret(reply, case)
         if s in ("sim", "setter"):
             winv, weak = reply
             ok = ("judge:none" in case.tags or (weak if "judge:WInvWeak" in case.tags else winv) == 1) and not case.impl
@@ -930,7 +948,8 @@ class C03Prop(core.Prop):
             d = v.detail or {}
             return (case.stream == "k4" and "k4:zero-draw" in case.tags and v.impl_spec is False
                     and d.get("k4_excused") == 1)
-        return {"K4": k4}
+        return {"K4": k4, "C02-E2": p_examples.array_truth_finding, "C02-E3": p_examples.victim_ledger_finding,
+                "C09-A1": p_examples.position_alias_finding}
 
     # ---- shrinking ----------------------------------------------------------------------------
     def shrink_candidates(self, d):
@@ -941,6 +960,9 @@ class C03Prop(core.Prop):
                 yield {"stream": s, "d": x}
             return
         if s == "sim":
+            return
+        if s == "example-modelled":
+            yield from p_examples.shrink_candidates(d)
             return
         if s == "setter":
             for k in range(len(d["writes"])):
